@@ -20,6 +20,7 @@ EQ_COVERAGE_EXCEPTIONS = {
     # (class, param): reason
 }
 
+ROUNDERS = {"np.around", "np.round", "np.round_", "numpy.around", "numpy.round", "round", "np.array2string", "np.format_float_positional", "np.floor", "np.rint", "math.floor"}
 ITER_CALLS = {"frozenset", "tuple", "set", "list", "sorted", "iter", "len", "sum", "min", "max", "dict", "enumerate", "zip"}
 
 
@@ -137,6 +138,38 @@ def declared_kinds(repo, cls, attr_or_prop):
     return kinds
 
 
+def declared_annotations(repo, cls, attr_or_prop):
+    """texts of the declared types of self.<name>: property return and the constructor parameter feeding it"""
+    out = []
+    priv = trivial_getter_attr(repo, cls, attr_or_prop) or attr_or_prop
+    for nm in (attr_or_prop, strip(priv)):
+        a = getter_annotation(repo, cls, nm)
+        if a:
+            out.append(a)
+    cm = ctor_model(repo, cls)
+    feeding = cm.feeding_params(priv) if priv in cm.attributes() else set()
+    for pn, pann, _d in cm.params:
+        if pn in feeding and len(feeding) == 1 and pann:
+            out.append(pann)
+    return out
+
+
+def sequence_of_objects(ann):
+    """True if the annotation is a list / tuple / sequence whose elements are objects (not ids, names or numbers)"""
+    try:
+        t = ast.parse(ann.strip("'\""), mode="eval").body
+    except SyntaxError:
+        return False
+    for n in ast.walk(t):
+        if isinstance(n, ast.Subscript) and norm(n.value).split(".")[-1] in ("List", "list", "Sequence", "Tuple", "tuple"):
+            elems = n.slice.elts if isinstance(n.slice, ast.Tuple) else [n.slice]
+            for e in elems:
+                names = {norm(x).split(".")[-1].strip("'\"") for x in ast.walk(e) if isinstance(x, (ast.Name, ast.Attribute, ast.Constant)) and not (isinstance(x, ast.Constant) and not isinstance(x.value, str))}
+                if names and not names & {"int", "str", "float", "bool", "Ellipsis", "None", "Optional", "Union"}:
+                    return True
+    return False
+
+
 def users_of(repo, owner, dunder):
     """Concrete classes whose `dunder` resolves (through the MRO) to owner's."""
     out = []
@@ -184,6 +217,8 @@ def run(repo, res, tier):
     res.rule("EQ-C", "__hash__ reads a subset of what __eq__ compares; __hash__ implies __eq__", 30)
     res.rule("EQ-D", "__hash__ total: nullable attributes guarded, hashed elements hashable by declared type", 100)
     res.rule("EQ-E", "set-typed attributes are not converted to sequences before comparison", 10)
+    res.rule("EQ-I", "ordered sequences of objects are not reduced to sets before comparison", 2)
+    res.rule("EQ-J", "attributes rounded for equality are rounded for the hash", 1)
     res.rule("EQ-F", "element-wise matching of a collection of self against other's is two-sided (sizes compared)", 2)
     res.rule("EQ-G", "__hash__ is order-insensitive wherever __eq__ is", 3)
     res.rule("EQ-H", "__eq__ compares exactly (on the same canonical form __hash__ uses): no tolerance-based comparison", 30)
@@ -202,6 +237,30 @@ def run(repo, res, tier):
         if eq is not None:
             tol = tolerant_comparisons(repo, cls, eq)
             res.check("EQ-H", "%s.__eq__ compares exactly" % cname, not tol, mod, tol[0][0] if tol else eq, "%s.__eq__: %s" % (cname, tol[0][1] if tol else ""), "values closer than a tolerance compare equal: with a relative tolerance objects that differ by far more than 1e-10 are equal, and objects that are equal get different hashes (the hash is computed from the exact / rounded value)", qualname="%s.__eq__" % cname)
+        # ---------------- EQ-J: where __eq__ compares a rounded / formatted form of an attribute, __hash__ hashes a
+        # rounded form of it too (values within the rounding are equal, so their hashes must agree)
+        if eq is not None and hs is not None:
+            def rounded(fn):
+                me_ = fn.args.args[0].arg
+                out = {}
+                for n in walk_no_nested(fn):
+                    if isinstance(n, ast.Call) and (norm(n.func) in ROUNDERS or (isinstance(n.func, ast.Attribute) and n.func.attr == "round" and not isinstance(n.func.value, ast.Name))):
+                        for x in ast.walk(n):
+                            ch = attr_chain(x) if isinstance(x, ast.Attribute) else None
+                            if ch and len(ch) == 2 and ch[0] == me_:
+                                out.setdefault(strip(ch[1]), n)
+                    if isinstance(n, ast.JoinedStr) or (isinstance(n, ast.BinOp) and isinstance(n.op, ast.Mod) and isinstance(n.left, ast.Constant) and isinstance(n.left.value, str)):
+                        for x in ast.walk(n):
+                            ch = attr_chain(x) if isinstance(x, ast.Attribute) else None
+                            if ch and len(ch) == 2 and ch[0] == me_:
+                                out.setdefault(strip(ch[1]), n)
+                return out
+
+            r_eq, r_hs = rounded(eq), rounded(hs)
+            read_hs = {strip(a) for a in names_on(hs, hs.args.args[0].arg)}
+            for a in sorted(r_eq):
+                if a in read_hs:
+                    res.check("EQ-J", "%s: %s is rounded for equality and for the hash" % (cname, a), a in r_hs, mod, hs, "%s.__hash__ hashes %s as it is while __eq__ compares its rounded form" % (cname, a), "two objects whose values differ by less than the rounding are equal but hash differently", qualname="%s.__hash__" % cname)
         # ---------------- EQ-A
         if eq is not None:
             ps = [a.arg for a in eq.args.args]
@@ -405,14 +464,20 @@ def run(repo, res, tier):
                             norm(n),
                             "a set-typed attribute is turned into a sequence before comparison: equality depends on insertion order",
                         )
-                elif isinstance(n, ast.Call) and call_name(n) in ("set", "frozenset") and len(n.args) == 1:
+                elif isinstance(n, ast.Call) and call_name(n) in ("set", "frozenset", "sorted") and len(n.args) == 1:
                     res.ok("EQ-E", "%s.__eq__: %s" % (cname, norm(n)))
+                    # the dual: an ordered sequence of objects (a cycle, a state list) loses order and multiplicity
+                    ch = attr_chain(n.args[0])
+                    if ch and len(ch) == 2 and ch[0] in (eq.args.args[0].arg, eq.args.args[1].arg):
+                        anns = declared_annotations(repo, cls, ch[1])
+                        kinds = declared_kinds(repo, cls, ch[1])
+                        ordered = bool(anns) and "set" not in kinds and all(sequence_of_objects(a) for a in anns)
+                        res.check("EQ-I", "%s.__eq__: %s keeps what distinguishes the declared type" % (cname, norm(n)), not ordered, mod, n, "%s.__eq__: %s" % (cname, norm(n)), "an ordered sequence of objects is compared as a set: two objects whose sequences differ in order or multiplicity compare equal although a constructor-visible attribute differs")
 
 
 def _is_data_attr(repo, cls, name):
     """name (stripped) denotes data of the object: a ctor-fed attribute or a property, not a method."""
-    _o, m = repo.find_method(cls, name)
-    return m is None
+    return all(repo.find_method(cls, n)[1] is None for n in (name, "_" + name, "__" + name))
 
 
 def _self_attr_expr(node, me):
